@@ -493,6 +493,74 @@ let cmd_fileparse (a : sx list) : string =
            ^ ")")
   | _ -> failwith "fileparse: arguments"
 
+(* ---------- schema documents ---------- *)
+open Json
+let rec sx_json s : json =
+  match head s with
+  | ("null", _) -> JNull
+  | ("bool", [b]) -> JBool (atom b <> "0")
+  | ("num", [t]) -> JNum (sx_bytes t)
+  | ("str", [t]) -> JStr (sx_bytes t)
+  | ("arr", l) -> JArr (L.map sx_json l)
+  | ("obj", kvs) -> JObj (L.map (function Ls [k; v] -> (sx_bytes k, sx_json v) | _ -> failwith "bad member") kvs)
+  | (h, _) -> failwith ("bad json " ^ h)
+
+let show_name (n : name) = hex n.nm_full
+let show_node (n : mnode) : string =
+  let ty = (match n.m_type with
+    | RNull -> "null" | RBoolean -> "boolean" | RInt -> "int" | RLong -> "long" | RFloat -> "float"
+    | RDouble -> "double" | RBytes -> "bytes" | RString -> "string"
+    | RArray k -> "(array " ^ string_of_int (int_of_nat k) ^ ")"
+    | RMap k -> "(map " ^ string_of_int (int_of_nat k) ^ ")"
+    | RUnion ks -> "(union" ^ String.concat "" (L.map (fun k -> " " ^ string_of_int (int_of_nat k)) ks) ^ ")"
+    | RRecord (nm, fs) -> "(record " ^ show_name nm ^ String.concat "" (L.map (fun (f, k) -> " (" ^ hex f ^ " " ^ string_of_int (int_of_nat k) ^ ")") fs) ^ ")"
+    | REnum (nm, syms) -> "(enum " ^ show_name nm ^ String.concat "" (L.map (fun s -> " " ^ hex s) syms) ^ ")"
+    | RFixed (nm, size) -> "(fixed " ^ show_name nm ^ " " ^ ns size ^ ")") in
+  let lt = (match n.m_logical with
+    | None -> "none"
+    | Some (LDecimal (sc, pr)) -> "(decimal " ^ ns sc ^ " " ^ ns pr ^ ")"
+    | Some LUuid -> "uuid" | Some LDate -> "date" | Some LTimeMillis -> "time-millis"
+    | Some LTimeMicros -> "time-micros" | Some LTimestampMillis -> "timestamp-millis"
+    | Some LTimestampMicros -> "timestamp-micros" | Some LDuration -> "duration"
+    | Some LBigDecimal -> "big-decimal" | Some (LUnknown s) -> "(unknown " ^ hex s ^ ")") in
+  "(node " ^ ty ^ " " ^ lt ^ ")"
+let show_schema (g : mnode list) = "(schema" ^ String.concat "" (L.map (fun n -> " " ^ show_node n) g) ^ ")"
+
+(* parse JSONAST -> (ok NODES xPCF xFP xJSONTEXT xSPECPCF) *)
+let cmd_parse (a : sx list) : string =
+  match a with
+  | [j] ->
+      let doc = sx_json j in
+      (match Parse.parse_schema doc with
+       | Ok g ->
+           (match CanonicalForm.canonical_form fuel_big g, CanonicalForm.fingerprint fuel_big g with
+            | Ok t, Ok f ->
+                "(ok " ^ show_schema g ^ " " ^ hex t ^ " " ^ hex f ^ " " ^ hex (json_text doc) ^ " "
+                ^ hex (PcfSpec.pcf (nat_of_int 2000) None doc) ^ ")"
+            | _ -> "(cf-err)")
+       | Err _ -> "(err data)"
+       | _ -> "(unmodelled)")
+  | _ -> failwith "parse: arguments"
+
+(* freeze SCHEMA -> (ok xFP xJSON) : fingerprint and regenerated JSON of a built graph *)
+let cmd_freeze (a : sx list) : string =
+  match a with
+  | [sch] ->
+      let g = sx_schema_mut sch in
+      if g = [] then "(err data)" else
+      (match CanonicalForm.fingerprint fuel_big g with
+       | Ok f ->
+           (match SchemaJson.schema_json fuel_big g with
+            | Ok t ->
+                (match freeze_nodes (nat_of_int (L.length g)) g with
+                 | Ok _ -> "(ok " ^ hex f ^ " " ^ hex t ^ ")"
+                 | _ -> "(err data)")
+            | Err _ -> "(err data)"
+            | _ -> "(outoffuel)")
+       | Err _ -> "(err data)"
+       | _ -> "(outoffuel)")
+  | _ -> failwith "freeze: arguments"
+
 let run_case (line : string) : string =
   try
     match parse_many line with
@@ -507,6 +575,8 @@ let run_case (line : string) : string =
          | "cw" -> cmd_cw args
          | "cr" -> cmd_cr args
          | "fileparse" -> cmd_fileparse args
+         | "parse" -> cmd_parse args
+         | "freeze" -> cmd_freeze args
          | _ -> failwith ("unknown command " ^ cmd))
     | _ -> "(bad-case)"
   with
